@@ -45,7 +45,7 @@ class C12(scen.WorldProp):
                   "Wheatley's strikes from the humans' line. non-trivial = humans on a line of their own")
 
     def cases(self, rng, tier):
-        n = 60 if tier == "quick" else 500
+        n = 200 if tier == "quick" else 1500
         for i in range(n):
             N = rng.choice([4, 6, 8, 8, 12, 16])
             nh = rng.randint(max(2, (N + 2) // 3), N - 1)
